@@ -9,6 +9,7 @@ import numpy as np
 
 from harness.bootstrap import load_chi
 from harness.core import Family
+from harness import forms as FM
 from harness.oracle import filters as F
 
 chi = load_chi()
@@ -190,6 +191,45 @@ def base_case(ctx, rng, idx):
             ctx.violation('invariance', 'not_invariant:%s:%s' % (cname, tag),
                           {'original': val, 'transformed': v2,
                            'case': describe}, feats)
+
+    # ---- the same numbers in another container / dtype
+    # (filters document np.ndarray inputs: array forms only)
+    form = FM.pick(rng, ['readonly', 'strided', 'fortran', 'int64', 'int32'])
+    is_int = form in ('int64', 'int32')
+    if is_int:
+        obs_f = obs if has_nan else np.round(obs * 10)
+        sim_f = np.round(sim * 10)
+        # integer data with a degenerate (zero-spread) cell is not generated
+        if np.any(np.std(sim_f, axis=0) < 0.5) or (
+                not has_nan and len(obs_f) > 1 and
+                np.any(np.std(obs_f, axis=0) < 0.5)):
+            is_int, form = False, 'strided'
+            obs_f, sim_f = obs, sim
+    else:
+        obs_f, sim_f = obs, sim
+    ov = obs_f if (has_nan and is_int) else FM.variant(obs_f, form)
+    sv = FM.variant(sim_f, form)
+    if ov is not None and sv is not None:
+        try:
+            fv = make_filter(cname, ov, k)
+            v3 = fv.compute_log_likelihood(sv)
+            s3, g3 = fv.compute_sensitivities(sv)
+            ref3 = float(np.real(ref_value(cname, obs_f,
+                                           sim_f.astype(complex), k)))
+            ctx.count('input_forms_compared')
+            if np.isfinite(ref3) and not (
+                    ctx.close(v3, ref3, rtol=1e-10, scale=abs(ref3) + 1) and
+                    ctx.close(s3, ref3, rtol=1e-10, scale=abs(ref3) + 1)
+                    and np.asarray(g3).shape == sim.shape):
+                ctx.violation('same_numbers_same_result',
+                              'input_form:%s:%s' % (cname, form),
+                              {'chi': v3, 's1': s3, 'reference': ref3,
+                               'observations': obs_f, 'simulated': sim_f},
+                              dict(feats, input_form=form))
+        except Exception as e:      # noqa
+            ctx.violation_exc('evaluation_raises', e,
+                              {'case': describe, 'input_form': form},
+                              dict(feats, input_form=form))
 
     # ---- re-ordering of time points through sort_times (once / twice)
     n_t = obs.shape[2]
